@@ -131,7 +131,7 @@ package stream
 //@   ensures aad_digests: [C12 C04] err == nil && sealing && !old(s.finishedSendAAD) ==> forall i :: 0 <= i && i < 32 ==> sealAAD[i] == s.finalSendDigest[i] && sealAAD[32+i] == s.finalRecvDigest[i]
 //@   ensures nonce: [C12] err == nil && sealing ==> len(sealNonce) == 16 && (forall i :: 4 <= i && i < 16 ==> sealNonce[i] == s.encryptIV[i]) && be32(sealNonce, 0) == (be32(s.encryptIV, 0) + ctr0) % 4294967296
 //@   ensures ctr_refuse: [C12] sealing && ctr0 == 4294967295 ==> err != nil && wrCount == old(wrCount)
-//@   ensures digest_covers_wire: [C04] err == nil && old(s.sendDigest != nil && s.finalSendDigest == nil) && !sealing ==> s.sendDigestWritten && hashWrites == old(hashWrites) + ite(len(data) > 0, 2, 1)
+//@   ensures digest_covers_wire: [C04 C12] err == nil && old(s.sendDigest != nil && s.finalSendDigest == nil) && !sealing ==> s.sendDigestWritten && hashWrites == old(hashWrites) + ite(len(data) > 0, 2, 1)
 //@   ensures digest_frozen_after: [C04] old(s.finalSendDigest) != nil ==> hashWrites == old(hashWrites) && s.finalSendDigest == old(s.finalSendDigest)
 //@   ensures wf_kept: digestsWF(s) && buffersSeparate(s)
 
@@ -383,3 +383,50 @@ package stream
 //@   hyp 0 <= n && n < 4294967296 && b0 == n / 16777216 % 256 && b1 == n / 65536 % 256 && b2 == n / 256 % 256 && b3 == n % 256
 //@   concl b0*16777216 + b1*65536 + b2*256 + b3 == n
 //@ end
+
+//@ func (*Stream).FinalizeDigests
+//@   props C04 C12
+//@   requires wf: digestsWF(s)
+//@   assigns s.finalSendDigest, s.finalRecvDigest
+//@   ensures frozen: s.finalSendDigest != nil && s.finalRecvDigest != nil && digestsWF(s)
+//@   ensures once: (old(s.finalSendDigest) != nil ==> s.finalSendDigest == old(s.finalSendDigest)) && (old(s.finalRecvDigest) != nil ==> s.finalRecvDigest == old(s.finalRecvDigest))
+
+//@ func (*Stream).SetSymmetricKey
+//@   props C12 C04 C06
+//@   requires wf: digestsWF(s)
+//@   assigns s.gcm, s.encryptKey, s.encryptIV, s.encryptCounter, s.decryptCounter, s.finishedSendAAD, s.finishedRecvAAD, s.finalSendDigest, s.finalRecvDigest, s.encrypted, randCount
+//@   ensures bad_key: len(key) != 32 ==> err != nil && s.gcm == old(s.gcm) && s.encrypted == old(s.encrypted) && randCount == old(randCount)
+//@   ensures keyed: [C12 C06] err == nil ==> s.gcm != nil && s.encrypted && len(s.encryptKey) == 32 && fresh(s.encryptKey) && forall i :: 0 <= i && i < 32 ==> s.encryptKey[i] == old(key[i])
+//@   ensures iv_fresh: [C12] err == nil ==> randCount == old(randCount) + 1 && s.encryptCounter == 0 && s.decryptCounter == 0 && !s.finishedSendAAD && !s.finishedRecvAAD
+//@   ensures digests_frozen: [C04] err == nil ==> s.finalSendDigest != nil && s.finalRecvDigest != nil && digestsWF(s) && (old(s.finalSendDigest) != nil ==> s.finalSendDigest == old(s.finalSendDigest)) && (old(s.finalRecvDigest) != nil ==> s.finalRecvDigest == old(s.finalRecvDigest))
+//@   ensures wf_kept: digestsWF(s)
+
+//@ func (*Stream).prepareCryptoForSecret
+//@   props C12 C09
+//@   assigns s.cryptoBeforeSecret, s.encrypted
+//@   ensures saved: s.cryptoBeforeSecret == old(s.encrypted)
+//@   ensures on_if_keyed: s.encrypted == (old(s.encrypted) || s.gcm != nil)
+
+//@ func (*Stream).restoreCryptoAfterSecret
+//@   props C12 C09
+//@   assigns s.encrypted
+//@   ensures restored: s.encrypted == s.cryptoBeforeSecret
+
+//@ func (*Stream).PrepareCryptoForSecret
+//@   props C09
+//@   assigns s.cryptoBeforeSecret, s.encrypted
+//@   ensures saved: s.cryptoBeforeSecret == old(s.encrypted) && s.encrypted == (old(s.encrypted) || s.gcm != nil)
+//@ func (*Stream).RestoreCryptoAfterSecret
+//@   props C09
+//@   assigns s.encrypted
+//@   ensures restored: s.encrypted == s.cryptoBeforeSecret
+//@ func (*Stream).CryptoForSecretIsNoop
+//@   props C09
+//@   pure
+//@   ensures result == (s.gcm == nil || s.encrypted)
+
+//@ func (*Stream).SetCryptoMode
+//@   props C12
+//@   assigns s.encrypted
+//@   ensures on: enabled ==> result == (s.gcm != nil) && s.encrypted == (old(s.encrypted) || s.gcm != nil)
+//@   ensures off: !enabled ==> result && !s.encrypted
